@@ -380,6 +380,11 @@ pub fn check(scn: &Scenario, c: &mut Counters) -> Verdict {
         Err(e) => return Verdict::harness(e),
     };
     c.absorb_run(&out);
+    if out.lost_wakeup.is_some() || out.budget_exhausted {
+        // liveness under schedules is C12's business
+        c.bump("skipped.liveness");
+        return Verdict::skip("evaluation did not finish under this schedule (C12)".into());
+    }
     // what the single task returned
     let outcomes = match &out.ends[0] {
         TaskEnd::Finished(TaskResult::Outcomes(o)) => o.clone(),
